@@ -839,7 +839,7 @@ func init() {
 		Check: checkC14,
 		NonTrivial: func(sc *Scenario, res *RunResult, t *Truth) bool {
 			for _, c := range t.Calls {
-				if c.Op == "update" && c.RetSeq >= 0 {
+				if (c.Op == "update" || c.Op == "reload") && c.RetSeq >= 0 {
 					return true
 				}
 			}
